@@ -82,6 +82,42 @@ CHECKS.update({
         note='Quick replays all sets of <= 2 names (3.9k cases) and model-checks triples; thorough replays triples too.'),
 })
 
+CHECKS.update({
+    'C02': dict(
+        cat='model_checking', ref='DESIGN.md 4.3, 6/C02', engine='keys',
+        technique='TLA+ KeyScheme (key = function of the computation descriptor) enumerated by TLC; each case realised '
+                  'in 11 computation-preserving ways on the real library and required to give the specified key',
+        text='TLC enumerates parameter values (atoms incl. quotes/separators/placeholders, lists, mappings, parameter '
+             'objects) x persisted/ignored/default parameter variations and prints the key tree of every task; the '
+             'harness builds each case as dict / file / renamed+moved file / YAML / permuted declarations and mapping '
+             'keys / namespace / nested namespace / double mount / context dict / context file list / for_namespaces '
+             'context, with random ignored and default-valued parameters and random global_vars behind placeholders; '
+             'all must give sha256(spec key text)[:32]. Two fresh interpreters with different PYTHONHASHSEED compare '
+             'keys of the object menu.',
+        note='H uninterpreted in TLA+ (hashlib in the binding). Known findings D8a/D8b are matched by input class.'),
+    'C03': dict(
+        cat='model_checking', ref='DESIGN.md 4.3, 6/C03', engine='keys',
+        technique='TLA+ KeyPairs: Injective invariant over all pairs of values checked by TLC; on the real code every '
+                  'enumerated value is built into a chain and locations grouped to find distinct values sharing one',
+        text='TLC checks InjectiveQuoteFree over all pairs (must hold) and exhibits the counterexample of Injective '
+             '(unescaped quoting, known finding D7). Every enumerated value is placed in a parameter of a real chain; '
+             'distinct values with one location are reported (confirmed by a stale read on the real code); the chain '
+             'hash (a different upstream location moves every downstream location) and parameter variations of a '
+             'downstream task are checked on the real keys.',
+        note='Value universe bounded (depth <= 2, lengths <= 2, menu of atoms and objects). sha256/128 assumed '
+             'collision free.'),
+    'C12': dict(
+        cat='model_checking', ref='DESIGN.md 4.3, 6/C12', engine='keys',
+        technique='TLA+ KeyScheme as frozen transcription of the 1.4.0 scheme; TLC-enumerated cases compared with the '
+                  'real keys, paths and side files; stores written from the spec must be read back without a run',
+        text='For every enumerated case the real name_for_persistence must equal sha256(spec key text)[:32], the data '
+             'path <groups>/<task>/<key>.<ext>, run-info and log names beside it (parameter mode and name mode); '
+             'repr_from_instantiation must equal the spec text; results planted at the spec locations (JSON file, '
+             'directory) must be found, loaded and nothing run; 100 golden vectors computed at the pinned commit pin '
+             'hash and truncation.',
+        note='The reference is never regenerated from /repo.'),
+})
+
 PENDING = {
     'C02': 'check not built yet (KeyScheme specification in progress)',
     'C03': 'check not built yet (KeyScheme specification in progress)',
@@ -135,6 +171,9 @@ def main():
                                'states and prints expected resolutions; harness/tcverif/resolve_check.py binds'},
             {'name': 'names', 'path': '/verif/specs/Names.tla', 'serves_properties': ['C10'],
              'kind_free_text': 'TLA+ name resolution, token level vs character-level transcription of the code'},
+            {'name': 'keys', 'path': '/verif/specs/KeyScheme.tla', 'serves_properties': ['C02', 'C03', 'C12'],
+             'kind_free_text': 'TLA+ transcription of the 1.4.0 key derivation on TLC strings (+ KeyPairs.tla); '
+                               'harness/tcverif/key_check.py binds'},
             {'name': 'store', 'path': '/verif/specs/StoreAtomic.tla',
              'serves_properties': ['C01', 'C04', 'C07', 'C13'],
              'kind_free_text': 'TLA+ specification of task objects / chains / data directory at public-call '
